@@ -67,7 +67,7 @@ def work_logic(lname):
     funcs.update(f5)
     for r5 in res5:
         tail = r5.name.split('.', 2)[2]
-        if tail.startswith('read-value') or tail.startswith('open-implies-sat'):
+        if tail.startswith('read-value') or tail.startswith('open-implies-sat') or (tail.startswith('literal-kind.') and tail.endswith('.read-value')):
             r5.name = f'C02.literals.{L}.{tail}'
             results.append(r5)
     return results, funcs
